@@ -244,7 +244,7 @@ def known_int(tok, vals):
     if not vid:
         return None
     for v in vals.get(vid, []):
-        if v.get("valueKind") == "known" and "intvalue" in v:
+        if (v.get("known") == "true" or v.get("valueKind") == "known") and "intvalue" in v:
             return int(v["intvalue"])
     return None
 
